@@ -296,11 +296,18 @@ func runS3Hist(args []string) {
 		}
 		seed := verifx.CaseSeed(f.Seed, k)
 		dir := filepath.Join(f.Scratch, fmt.Sprintf("s3h-%d", k))
-		stk := newS3hStack(dir, *stack)
+		sname := *stack
+		if sname == "all" { // rotate through every composition
+			sname = S3hStackNames[k%len(S3hStackNames)]
+		} else if strings.Contains(sname, ",") {
+			names := strings.Split(sname, ",")
+			sname = names[k%len(names)]
+		}
+		stk := newS3hStack(dir, sname)
 		c := &s3hCase{ctx: ctx, st: stk.Storage, out: out, vids: map[string]int{}, bnams: []string{"b0", "b1"},
 			lastEtag: map[string]string{}, lastSize: map[string]int64{}, made: map[string]bool{}}
 		out.Case(k, seed)
-		out.Line("cfg stack=%s mode=%s", *stack, *mode)
+		out.Line("cfg stack=%s mode=%s", strings.ReplaceAll(sname, " ", "+"), *mode)
 		func() {
 			defer func() {
 				if r := recover(); r != nil {
